@@ -47,22 +47,8 @@ func reachUnderF(start *ssa.BasicBlock, target func(in ssa.Instruction) bool, is
 		ifi := blockIf(b)
 		for i, s := range b.Succs {
 			if ifi != nil {
-				decided := false
-				take := true
-				for _, k := range []int64{0, 1, 2, 3} {
-					kk := k
-					isK := func(x ssa.Value) bool { c, ok := constInt(x); return ok && c == kk }
-					switch relOn(ifi.Cond, i == 0, isV, isK) {
-					case "==":
-						decided, take = true, val == kk
-					case "!=":
-						decided, take = true, val != kk
-					}
-					if decided {
-						break
-					}
-				}
-				if decided && !take {
+				t, f := evalUnder(ifi.Cond, isV, val, 4)
+				if (i == 0 && !t) || (i == 1 && !f) {
 					continue
 				}
 			}
@@ -73,6 +59,74 @@ func reachUnderF(start *ssa.BasicBlock, target func(in ssa.Instruction) bool, is
 		return false
 	}
 	return walk(start)
+}
+
+// evalUnder: which truth values can the boolean cond take when every value satisfying isV equals val?
+// Handles comparisons with constants, negation, and the phis that `a || b` / `a && b` / a local
+// boolean variable compile to (an edge contributes only if its predecessor block is feasible).
+func evalUnder(cond ssa.Value, isV func(ssa.Value) bool, val int64, depth int) (canTrue, canFalse bool) {
+	if depth < 0 {
+		return true, true
+	}
+	switch x := cond.(type) {
+	case *ssa.Const:
+		if x.Value != nil && x.Value.String() == "true" {
+			return true, false
+		}
+		if x.Value != nil && x.Value.String() == "false" {
+			return false, true
+		}
+	case *ssa.UnOp:
+		if x.Op == token.NOT {
+			t, f := evalUnder(x.X, isV, val, depth-1)
+			return f, t
+		}
+	case *ssa.BinOp:
+		for _, k := range []int64{0, 1, 2, 3, 4, 5, 6, 7} {
+			kk := k
+			isK := func(v ssa.Value) bool { c, ok := constInt(v); return ok && c == kk }
+			switch relOn(x, true, isV, isK) {
+			case "==":
+				return val == kk, val != kk
+			case "!=":
+				return val != kk, val == kk
+			}
+		}
+	case *ssa.Phi:
+		for ei, e := range x.Edges {
+			pred := x.Block().Preds[ei]
+			if !blockFeasibleUnder(pred, x.Block(), isV, val, depth-1) {
+				continue
+			}
+			t, f := evalUnder(e, isV, val, depth-1)
+			canTrue = canTrue || t
+			canFalse = canFalse || f
+		}
+		return
+	}
+	return true, true
+}
+
+// blockFeasibleUnder: can control reach `to` through `pred` under the assumption? Uses the branch
+// conditions that dominate pred and the edge pred->to.
+func blockFeasibleUnder(pred, to *ssa.BasicBlock, isV func(ssa.Value) bool, val int64, depth int) bool {
+	for _, fct := range factsAt(pred) {
+		t, f := evalUnder(fct.Cond, isV, val, depth)
+		if (fct.Truth && !t) || (!fct.Truth && !f) {
+			return false
+		}
+	}
+	if ifi := blockIf(pred); ifi != nil {
+		t, f := evalUnder(ifi.Cond, isV, val, depth)
+		okEdge := false
+		for i, s := range pred.Succs {
+			if s == to && ((i == 0 && t) || (i == 1 && f)) {
+				okEdge = true
+			}
+		}
+		return okEdge
+	}
+	return true
 }
 
 func runC10(p *P, r *R) {
